@@ -87,10 +87,26 @@ PROPS = {
         "technique": "Lean 4 proofs by list induction (split relation, append/shift lemmas) + history invariant + differential correspondence",
         "explanation": "Pure schedule functions of x/liquidvesting/types compared line by line with the compiled Lean driver; Go monitors check per-period conservation, lengths and totals on the real code.",
     },
+    "C06": {
+        "id": "C06",
+        "lean_modules": ["HaqqModel.Props.C06"],
+        "level": "proof",
+        "trusted_base": COMMON_TRUST + [
+            "modelled, not verified: the SDK's tx decoder (refuses unregistered extension options and message types), authz.MsgExec/MsgGrant unpacking, sdk.ChainAnteDecorators sequencing, the SDK ExtensionOptionsDecorator; the per-decorator 'only MsgEthereumTx' and chain-order statements are regenerated AST facts",
+        ],
+        "assumptions": [
+            "'extension option' = critical extension_options (non-critical ones are ignorable by protocol definition)",
+            "rejection is observed on DeliverTx; CheckTx/ReCheckTx-only shortcuts (EthMempoolFee, ReCheck skips) are listed per decorator in the regenerated facts",
+        ],
+        "level_text": "Machine-checked proofs (Lean 4) by mutual structural induction over message trees of any depth and width: a blocked message below any MsgExec, or a MsgGrant of a blocked type anywhere, is rejected by the limiter's scan for every nesting level and cap; the cap itself rejects; top-level MsgEthereumTx is rejected on both non-Ethereum routes; only MsgEthereumTx passes the Ethereum route; every option list containing an unknown extension option is rejected. Chain composition, route table, disabled types and the cap are regenerated from app/ante and decided by the kernel. The real decorators and the application's DeliverTx are compared with the model on random trees.",
+        "level_note": "Trusted: Lean kernel; go/ast extractor; correspondence harness; SDK decoder/decorator semantics modelled.",
+        "technique": "Lean 4 mutual structural induction + kernel-decided regenerated facts + differential correspondence",
+        "explanation": "checkDisabledMsgs modelled with its exact level arithmetic; gate = route selection + the rejecting prefix of each chain; trees with a blocked message at a uniformly chosen position are run through the real AuthzLimiterDecorator/RejectMessagesDecorator, whole encoded txs through DeliverTx, and tx objects through a handler composed like app.go.",
+    },
 }
 
 # properties not (yet) claimed, each with a reason; entries disappear as checks are built
 NOT_APPLICABLE = {pid: "check not built yet in this session (planned: see DESIGN.md §5)" for pid in
-                  ["C01", "C02", "C03", "C04", "C05", "C06", "C07", "C08", "C10", "C14", "C15", "C16", "C18", "C19", "C20"]}
+                  ["C01", "C02", "C03", "C04", "C05", "C07", "C08", "C10", "C14", "C15", "C16", "C18", "C19", "C20"]}
 
 HOOK_COMMITS = []
